@@ -279,6 +279,12 @@ func runC13(e *Engine, r *Report, tier string) {
 	// --- R4 clamp shape
 	gs := e.Method("x/crosschain/types", "Oracle", "GetSlashAmount")
 	if gs == nil {
+		// renamed: the Oracle method that clamps with MinInt/MaxInt
+		gs = e.findFn(func(f *ssa.Function) bool {
+			return f.Signature.Recv() != nil && strings.HasSuffix(namedTypeName(f.Signature.Recv().Type()), "x/crosschain/types.Oracle") && callsNamed(f, "MinInt")
+		})
+	}
+	if gs == nil {
 		r.Fail("R4", "GetSlashAmount", "", "UNRESOLVED-ANCHOR")
 	} else {
 		minOK, maxOK := false, false
